@@ -1,7 +1,10 @@
-"""Private functions/classes referenced by public definitions (decorator, base class, annotation) are omitted from the stub, which then refers to undefined names.
+"""Private functions referenced by public definitions (here: as a decorator) are omitted from the stub, which then refers to an undefined name.
 
 Exit status 1 = defect present, 0 = absent, 2 = inconclusive (preconditions of the input failed).
-Mechanism keys: stub-typecheck:parse-only:name-defined:private-function-omitted-but-referenced, stub-typecheck:parse-only:name-defined:private-class-omitted-but-referenced, stub-typecheck:semantic:name-defined:private-function-omitted-but-referenced, stub-typecheck:semantic:name-defined:private-class-omitted-but-referenced"""
+Mechanism keys:
+  stub-typecheck:parse-only:name-defined:private-function-omitted-but-referenced
+  stub-typecheck:semantic:name-defined:private-function-omitted-but-referenced
+"""
 import os
 import sys
 
@@ -29,7 +32,5 @@ class Public(_BaseImpl):
     pass
 '''
 EXPECT = ['stub-typecheck:parse-only:name-defined:private-function-omitted-but-referenced',
- 'stub-typecheck:parse-only:name-defined:private-class-omitted-but-referenced',
- 'stub-typecheck:semantic:name-defined:private-function-omitted-but-referenced',
- 'stub-typecheck:semantic:name-defined:private-class-omitted-but-referenced']
+ 'stub-typecheck:semantic:name-defined:private-function-omitted-but-referenced']
 run(FILES, ['po', 'sem'], EXPECT, what=__doc__.splitlines()[0])
